@@ -128,6 +128,43 @@ def store_classes(spec):
         yield f"load_stored-{spec['load_stored']}"
 
 
+def tiling_check(spec):
+    """ONE source written several times into ONE target under different regions (tiling a larger array with a block), in one
+    da.store call or as several compute=False stores computed together: every tile holds the source, the rest the sentinel."""
+    import dask
+    import dask.array as da
+
+    x = A.build_np(spec["source"])
+    d = A.build_da(spec["source"], x)
+    n = x.shape[0]
+    k, gap = spec["tiles"], spec["gap"]
+    t = np.full((k * (n + gap) + 1,) + x.shape[1:], SENTINEL, dtype=x.dtype)
+    regions = [(slice(i * (n + gap), i * (n + gap) + n),) + (slice(None),) * (x.ndim - 1) for i in range(k)]
+    sig = dict(op="store", tiling=True, compute=spec["mode"] == "call", lock=bool(spec["lock"]))
+    with impl("da.store (one source, one target, several regions)", **sig):
+        if spec["mode"] == "call":
+            da.store([d] * k, [t] * k, regions=regions, lock=spec["lock"], scheduler="sync")
+        elif spec["mode"] == "lazy-call":
+            r = da.store([d] * k, [t] * k, regions=regions, lock=spec["lock"], compute=False)
+            dask.compute(r, scheduler="sync")
+        else:
+            rs = [da.store(d, t, regions=regions[i], lock=spec["lock"], compute=False) for i in range(k)]
+            dask.compute(*rs, scheduler="sync")
+    mask = np.ones(t.shape, dtype=bool)
+    for i, r in enumerate(regions):
+        ensure(np.array_equal(t[r], x), f"tile #{i} of {k} (region {r[0]}): target holds {t[r].tolist()}, source is {x.tolist()} (chunks={spec['source']['chunks']}, mode={spec['mode']})", "tile-not-written", **sig)
+        mask[r] = False
+    ensure(bool(np.all(t[mask] == np.full((), SENTINEL).astype(t.dtype))), f"wrote outside the tiles: target={t.tolist()}", "wrote-outside-region", **sig)
+
+
+def tiling_enum(tier):
+    shapes = [[3], [2, 2]] if tier == "quick" else [[3], [4], [2, 2], [3, 2]]
+    for shp in shapes:
+        for ch in A.all_chunkings(shp):
+            for k, gap, mode, lock in itertools.product((2, 3), (0, 1), ("call", "lazy-call", "separate"), (False, True)):
+                yield {"source": {"shape": shp, "dtype": "i8", "fill": "arange", "seed": 0, "chunks": [list(c) for c in ch]}, "tiles": k, "gap": gap, "mode": mode, "lock": lock}
+
+
 def store_enum(tier):
     shape = [3, 4] if tier == "quick" else [4, 4]
     i = 0
@@ -200,6 +237,8 @@ def stack_random(draw):
 SUBCHECKS = [
     Sub("store_enum", store_check, kind="enum", cases=store_enum, nontrivial=store_nontrivial, classes=store_classes, exhaustive=True,
         doc="all chunkings of a (3,4) source stored at an offset (every other case strided) region x lock x compute x return_stored"),
+    Sub("store_tiling", tiling_check, kind="enum", cases=tiling_enum, nontrivial=lambda s: True, classes=lambda s: [s["mode"], f"tiles-{s['tiles']}"], exhaustive=True,
+        doc="one source stored 2-3 times into one target under different regions (all chunkings of small sources) x {one call, one compute=False call, separate compute=False stores computed together} x lock"),
     Sub("store", store_check, strategy=lambda tier: store_random(), n={"quick": 1500, "thorough": 30000}, nontrivial=store_nontrivial, classes=store_classes,
         doc="1-3 sources per call, random regions inside larger targets, locks, compute=False then compute, return_stored/load_stored, schedulers"),
     Sub("stack_enum", stack_check, kind="enum", cases=stack_enum, nontrivial=lambda s: len(s["array"]["chunks"][s["axis"]]) > 1, exhaustive=True,
